@@ -55,6 +55,14 @@ def baseline(copy):
     return len(stable), missing
 
 
+def _needs(name):
+    try:
+        return json.load(open(os.path.join(ROOT, 'seeded', 'needs.json'))).get(
+            name, 'see notes.md')
+    except OSError:
+        return 'see notes.md'
+
+
 def main():
     ap = argparse.ArgumentParser()
     ap.add_argument('seed_dir')
@@ -125,7 +133,7 @@ def main():
                 shutil.copy(os.path.join(sd, 'notes.md'), os.path.join(dst, 'notes.md'))
             meta = {'breaks_property': a.prop, 'written_by': 'independent sub-agent given only the '
                     'property text and a scratch worktree of /repo (HEAD with the fix: commits)',
-                    'needs_to_manifest': 'see notes.md',
+                    'needs_to_manifest': _needs(name),
                     'what_was_run': {
                         'patch_applies_to_repo_HEAD': res['patch_applies'],
                         'demo_exit_unchanged': ra[0], 'demo_exit_changed': rb[0],
